@@ -162,6 +162,26 @@ func (b *Body) cacheKeyCovers(l *Ledger, lab string, g *ssa.Global, fns []*ssa.F
 				ks = append(ks, q)
 			}
 			sort.Strings(ks)
+			// … and only by a call that goes on to succeed: an entry filed before a later check
+			// fails is handed out, without that check, to every later caller with the same key
+			if ei := errResultIndex(fn); ei >= 0 {
+				key2 := fmt.Sprintf("cache %s: %s #%d in %s files nothing for a call that fails", g.Name(), f.Name(), n, fname(fn))
+				bad2 := ""
+				for ins := range reachableAfter(b, i) {
+					r, isRet := ins.(*ssa.Return)
+					if !isRet {
+						continue
+					}
+					if rv := retVal(r, ei); rv != nil && !isNilConst(rv) {
+						bad2 = "after the value has been filed the call can still fail (error return at " + b.posOf(r) + "): the entry of the failed call is what later calls with the same key are answered with, without the check that failed"
+					}
+				}
+				if bad2 != "" {
+					l.add("R-GLOBALS", lab, key2, b.posOf(i), Violated, bad2, true)
+				} else {
+					l.add("R-GLOBALS", lab, key2, b.posOf(i), Discharged, "no error return is reachable after the value has been filed", true)
+				}
+			}
 			if len(missing) > 0 {
 				l.add("R-GLOBALS", lab, key, b.posOf(i), Violated, "the stored value is computed from "+strings.Join(missing, ", ")+", which the key ("+strings.Join(ks, ", ")+") does not include: a later call with the same key and a different "+missing[0]+" is answered with the value of the earlier one — the result of a call then depends on the calls before it, and between goroutines on their interleaving", true)
 			} else {
